@@ -334,6 +334,7 @@ pub fn spaces(env: &Env) -> Vec<Box<dyn Space>> {
         days_from_civil(2021, 4, 30),
         MAX_DAY,
         MIN_DAY + 1,
+        MIN_DAY, // the first day: midnight itself is below the limit, so rounding down must fail
     ];
     vec![
         Box::new(AddSpace { dts: dts.clone(), durs }),
